@@ -10,30 +10,30 @@ VERIF = os.path.dirname(os.path.dirname(os.path.abspath(__file__)))
 props = {json.loads(l)["id"]: json.loads(l) for l in open(os.path.join(VERIF, "properties.jsonl"))}
 
 TEXT = {
- "C01": ("Serve.tla/ServeMC.tla: TLC explores the Impl model of serve + ExactLenStream/MultipartStream exhaustively on bounded case sets (all range sets over L<=5, all entity-stream scripts of <=2-3 items per call incl. faults) with C01's invariants (Content-Length present on 200/206, exact hint, delivered <= announced, delivered = announced at a clean end); every recorded execution of the real code (enumerated + seeded cases incl. 2^32..2^64-1 landmarks, chunked and faulty streams, 4xx/304 bodies) is validated by TLC against the same predicates with Enforce={C01}.", "4 C01"),
+ "C01": ("Serve.tla/ServeMC.tla: TLC explores the Impl model of serve + ExactLenStream/MultipartStream exhaustively on bounded case sets (all range sets over L<=5, all entity-stream scripts of <=2-3 items per call incl. faults) with C01's invariants (Content-Length present on 200/206, exact hint, delivered <= announced, delivered = announced at a clean end); every recorded execution of the real code (enumerated + seeded cases incl. 2^32..2^64-1 landmarks, chunked and faulty streams, 4xx/304 bodies) is validated by TLC against the same predicates with Enforce={C01}; a body that never terminates within the poll bound is a violation.", "4 C01"),
  "C02": ("Body bytes are lexed into position-coded tokens; TLC checks on the model (BodyInv) and on every trace that the delivered token stream is a prefix of / equal to exactly the bytes the Content-Range names, for every chunking incl. landmark offsets.", "4 C02"),
- "C03": ("Ranges part of Serve.tla transcribes RFC 7233 resolution from the property text on 3-limb u64 arithmetic; ServeMC modes range (every set of <=2-3 specs over L<=5, positions 0..L+2) and big (landmark lengths x positions up to 2^64) check Impl against it; traces of requests carrying only Range (+ a matching If-Range) are validated with Enforce={C03}, incl. near-miss headers that must be ignored.", "4 C03"),
+ "C03": ("Ranges part of Serve.tla transcribes RFC 7233 resolution from the property text on 3-limb u64 arithmetic; ServeMC modes range (every set of <=2-3 specs over L<=5, positions 0..L+2) and big (landmark lengths x positions up to 2^64) check Impl against it; traces of requests carrying only Range (+ a matching If-Range) are validated with Enforce={C03}, incl. near-miss headers that must be ignored. Beyond the bounds: RangesInt.tla (the same resolution over unbounded integers) is checked symbolically by Apalache, and U64.tla is cross-checked against big-integer arithmetic (13 500 ASSUMEs).", "4 C03"),
  "C04": ("Validators part of Serve.tla: PreconditionFailed/NotModified as the two sentences of the property; ServeMC mode cond checks the Impl model on the categorical product; traces over ETag x mtime(sub-second) x If-Match x If-None-Match x dates x method validated with Enforce={C04}.", "4 C04"),
  "C05": ("IfRangeVerdict in Serve.tla (yes / no / free for a date equal to Last-Modified); ServeMC mode ifrange; traces over near-miss tags, dates, garbage x single/multi/unsatisfiable ranges, both directions (never 206 unless honoured; still honoured when matching).", "4 C05"),
- "C06": ("Expected multipart token sequence (part header with recomputed decimal widths, data run, trailer) and Content-Length = sum of token lengths, checked on the model (PartEstimate=1) and on traces with real part headers, 2..8 ranges, entity lengths to 2^64-1, 0..3 entity headers, with/without If-Range, chunked part streams.", "4 C06"),
- "C07": ("Entity streams are scripted (yield/pending/end/fail/overrun) and logged; ServeMC mode body explores every script of <=2-3 items per call for 200 / single 206 / 2-3 part multipart; predicates: no clean end after a short/failed/overrunning stream, nothing beyond the announced length.", "4 C07"),
- "C08": ("Stream.tla models BodyWriter(raw)+chunker at lock/wake granularity; StreamMC explores every producer program <=3-4 ops x chunk sizes x all interleavings with the consumer loop; StreamGen emits TLC behaviours that are replayed in the real code through the hook scheduler; every step (Probe snapshot, results, frames) is validated by StreamTrace with Enforce={C08} and compared with the Impl model (Strict).", "4 C08"),
- "C09": ("The gzip encoder is outside TLA+'s useful reach; an independent inflate/CRC-32 decoder in the harness projects frames to facts (decoded length, common prefix with the accepted bytes, member completeness, CRC, ISIZE, trailing bytes) and StreamTrace requires: after each successful flush everything accepted is decodable from the available frames, after drop exactly one valid member decoding to the accepted bytes. Transport/ordering around the encoder is the C08 model.", "4 C09"),
- "C10": ("StreamMC: all interleavings at lock-acquisition and wake granularity of producer programs (write/flush/wait/abort/drop) with a consumer that parks on the waker it passed, re-polls spuriously and presents waker 1 or 2; lost wake-ups are deadlocks of the model and the NoLostWakeup invariant; the real code runs the TLC-emitted and seeded schedules under the baton scheduler and every step is validated (a parked consumer nobody will wake is a `stuck` event).", "4 C10"),
- "C11": ("Abort and body-drop positions are part of the producer program / consumer schedule in StreamMC (AllowCDrop) and in the replayed/seeded schedules; predicates: next terminal after abort is an error, delivered is a prefix, no end-of-stream claim while the error is pending, writes/flushes fail after abort / after a first error / after the body is gone, queue released.", "4 C11"),
+ "C06": ("Expected multipart token sequence (part header with recomputed decimal widths, data run, trailer) and Content-Length = sum of token lengths, checked on the model (PartEstimate=1) and on traces with real part headers, 2..8 ranges, entity lengths to 2^64-1, 0..3 entity headers, with/without If-Range, chunked part streams, multi-segment Buf data types; boundary length taken from the response (any RFC 2046 boundary).", "4 C06"),
+ "C07": ("Entity streams are scripted (yield/pending/end/fail/overrun) and logged; ServeMC mode body explores every script of <=2-3 items per call for 200 / single 206 / 2-3 part multipart; predicates: no clean end after a short/failed/overrunning stream, nothing beyond the announced length, no clean end when the stream has nothing more to give (look-ahead field of the script); Stream::size_hint implemented or not; file-backed entities truncated between polls.", "4 C07"),
+ "C08": ("Stream.tla models BodyWriter(raw)+chunker at lock/wake granularity; StreamMC explores every producer program <=3-4 ops x chunk sizes x all interleavings with the consumer loop; StreamGen emits TLC behaviours that are replayed in the real code through the hook scheduler; every step (Probe snapshot, results, frames) is validated by StreamTrace with Enforce={C08} and compared with the Impl model (Strict). A free-running stress family (real threads, real lock contention, logically decided facts only) complements the baton scheduler; every trace check runs on a debug-assertions build and an optimised build.", "4 C08"),
+ "C09": ("The gzip encoder is outside TLA+'s useful reach; an independent inflate/CRC-32 decoder in the harness projects frames to facts (decoded length, common prefix with the accepted bytes, member completeness, CRC, ISIZE, trailing bytes) and StreamTrace requires: after each successful flush everything accepted is decodable from the available frames, after drop exactly one valid member decoding to the accepted bytes. Transport/ordering around the encoder is the C08 model. The flush protocol between BodyWriter, flate2's buffer and the compressor (where defect F10 lived) is modelled in GzFlush.tla and checked exhaustively by TLC (FlushInv, FinishInv, ConservedInv, LemmaInv; witness: flate2's flush alone loses bytes); traces include vectored writes and writes of 40-400 KB of incompressible data.", "4 C09, 8.7"),
+ "C10": ("StreamMC: all interleavings at lock-acquisition and wake granularity of producer programs (write/flush/wait/abort/drop) with a consumer that parks on the waker it passed, re-polls spuriously and presents waker 1 or 2; lost wake-ups are deadlocks of the model and the NoLostWakeup invariant; the real code runs the TLC-emitted and seeded schedules under the baton scheduler and every step is validated (a parked consumer nobody will wake is a `stuck` event); scheduling points also after each wake() call (eager wakers); liveness EventuallyTerminal under FairSpec; free-running stress cases.", "4 C10"),
+ "C11": ("Abort and body-drop positions are part of the producer program / consumer schedule in StreamMC (AllowCDrop) and in the replayed/seeded schedules; predicates: next terminal after abort is an error, delivered is a prefix, no end-of-stream claim while the error is pending, writes/flushes fail after abort / after a first error / after the body is gone, queue released; bodies and writers dropped normally and during panic unwinding; a consumer stuck after an abort is a C11 violation too.", "4 C11"),
  "C12": ("Hints and the end-of-stream flag are sampled before every poll (serve bodies) or as separate scheduled operations (streaming bodies) and kept as history; predicates evaluated at every step on both models and on all traces of the serve and stream engines.", "4 C12"),
  "C13": ("ServeMC mode env: any of the six headers may be garbage (refined nondeterministically to a parse error or any well-formed value): status stays in the envelope, 405 + Allow for other methods; traces: arbitrary bytes, near-misses, boundary numbers, repeated lines, all methods, entity lengths to 2^64-1; panics are recorded as events.", "4 C13"),
  "C14": ("Head clauses over the projected response head (Accept-Ranges, ETag byte-identical, Date within the call bracket, Last-Modified = floor(mtime) or Date, entity headers on 200/206 only) and two-request histories (second request copies validators verbatim from the first response) for all 32 subsets x ETag x mtime classes.", "4 C14"),
  "C15": ("Every case is issued as GET and HEAD against fresh entities; the pair predicate (same status, same header lines except Date/Last-Modified, empty HEAD body with exact hint 0, no get_range call) is checked on the model (PairInv) and on traces; streaming_body: HEAD => no writer, same headers.", "4 C15"),
- "C16": ("AcceptEncoding.tla transcribes the property (not the code); NegMC checks sanity lemmas and that the code's duplicate rule lies inside the envelope; every rendered list (all 1-2 element lists, seeded 3-4 element lists, 4 whitespace renderings) is decided by TLC.", "4 C16"),
- "C17": ("StreamTrace build event: Vary always, Content-Encoding: gzip iff AcceptEncoding!Allowed(abs) and level > 0, writer iff not HEAD; final event: body coding (valid gzip member decoding to the written bytes vs verbatim bytes) matches the header; Request and Parts, GET/HEAD/POST, levels 0..9.", "4 C17"),
- "C18": ("ReadFile.tla: Impl (unfold with read size) and predicates (exact file bytes, non-empty chunks, never a short clean end, error only when truncated, bounded polls, metadata, etag injective over versions); ReadFileMC exhaustive over sizes 0..9 x ranges x truncations; real 64 KiB traces over boundary sizes/ranges/truncation points, also through serve().", "4 C18"),
+ "C16": ("AcceptEncoding.tla transcribes the property (not the code); NegMC checks sanity lemmas and that the code's duplicate rule lies inside the envelope; every rendered list (all 1-2 element lists, seeded 3-4 element lists, 4 whitespace renderings) is decided by TLC. Six lemmas about the decision function (AcceptEncodingProofs.tla) are proved by TLAPS for lists of any length.", "4 C16"),
+ "C17": ("StreamTrace build event: Vary always, Content-Encoding: gzip iff AcceptEncoding!Allowed(abs) and level > 0, writer iff not HEAD; final event: body coding (valid gzip member decoding to the written bytes vs verbatim bytes) matches the header; Request and Parts, GET/HEAD/POST, levels 0..10, sequences of builder calls, repeated Accept-Encoding lines, case of header values.", "4 C17"),
+ "C18": ("ReadFile.tla: Impl (unfold with read size) and predicates (exact file bytes, non-empty chunks, never a short clean end, error only when truncated, bounded polls, metadata, etag injective over versions); ReadFileMC exhaustive over sizes 0..9 x ranges x truncations; real 64 KiB traces over boundary sizes/ranges/truncation points, also through serve(), concurrent streams over one file, two versions of a file (history), non-regular files, sparse files of 2-12 GiB (offsets / lengths around 2^31..2^33), a kernel-generated file whose reads come back short.", "4 C18"),
  "C19": ("FsDir.tla: POSIX resolution over the harness's tree (with '..' representable), validation, .gz substitution; FsDirMC exhaustive over paths <=3-4 segments: validation sufficient and not excessive; traces against a real directory tree compare get() with openat facts recorded by the harness.", "4 C19"),
  "C20": ("After the first terminal event every further poll must be end/error: MaxExtra polls in ServeMC body mode and StreamMC, 1-4 extra polls in every trace (inside catch_unwind).", "4 C20"),
 }
 NOTE = ("bounded model checking + sampled conformance, not proof: exhaustive only inside the stated constants; trusted: TLC 1.8.0 + "
         "CommunityModules Json/IOUtils, the harness projections (lexer, head projection, Probe snapshot, gzip decoder), rustc/cargo; "
-        "interleavings are explored at the hooked lock/wake sites of chunker.rs")
+        "interleavings are explored at the hooked lock/wake sites of chunker.rs (plus free-running stress for the unhooked ones; evidence lists unhooked_sync_sites)")
 engines = [
  {"name": "serve", "path": "harness/src/serve_eng.rs + spec/Serve.tla, ServeMC.tla, ServeTrace.tla", "serves_properties": plans.ALL_SERVE,
   "kind_free_text": "scripted entities -> http_serve::serve -> projected head, lexed body, per-poll hints; TLC validates traces and model-checks the Impl model"},
@@ -64,7 +64,7 @@ m = {"version": 1,
                "baseline_off_cmd": "cd /repo && cargo test --workspace --no-fail-fast --offline",
                "source_commits": ["5b370dd", "ce42520"], "add_only": True},
      "engines": engines, "checks": checks,
-     "notes": "All 20 properties are decided with TLA+ specifications under /verif/spec (TLC). Fix commits in /repo: b326285 a3342c0 c3279bc 0f2024b 94a5652 87f4e6c 1320894 7e6abb3 (see known_findings.json). tools/mutation_run.py applies /verif/mutants/*.patch and /verif/seeded/*/patch.diff to /repo, runs checks and restores the tree.",
+     "notes": "All 20 properties are decided with TLA+ specifications under /verif/spec (TLC). Fix commits in /repo: b326285 a3342c0 c3279bc 0f2024b 94a5652 87f4e6c 1320894 7e6abb3 5f58985 ec0fe7e (see known_findings.json; DESIGN.md 8.3 describes defects F1-F10). tools/mutation_run.py applies /verif/mutants/*.patch and /verif/seeded/*/patch.diff to /repo, runs checks and restores the tree; DESIGN.md 8.5/8.6 record which check catches which of the hand-written mutants and the 83 changes seeded by independent sub-agents, and which behaviour-preserving changes (mutants/L_*.patch, legit/a1..a8) stay silent.",
      "not_applicable": []}
 json.dump(m, open(os.path.join(VERIF, "MANIFEST.json"), "w"), indent=1)
 print("wrote MANIFEST with", len(checks), "checks")
